@@ -298,7 +298,33 @@ func init() {
 				check("HandleObjectValues:skip", h, func() { rjson.HandleObjectValues(d, skipHandler{buf}, buf) })
 			}
 		}
-		return "testing.AllocsPerRun around every listed call on successful inputs: floats on every conversion path (incl. the decimal fallback), integers around the bounds, literals and token readers, string tokens with destinations of spare capacity len+0/1/8 (with and without a prefix), UnescapeStringContent with spare len+0/1/5, Valid/SkipValue/SkipValueFast/Handle*Values with a buffer warmed on the same document (nesting up to 3000); expected 0", nil
+		// the length of the stack slice after a call (model: max(initial length, height reached), C19.stack_size)
+		var cases []Case
+		stackOf := func(n int) string {
+			if n == 0 {
+				return "-"
+			}
+			xs := make([]string, n)
+			for i := range xs {
+				xs[i] = "7"
+			}
+			return strings.Join(xs, ",")
+		}
+		for i := 0; i < len(docs) && i < c.scale(400, 4000); i++ {
+			d := docs[i]
+			if len(d) > 6000 {
+				continue
+			}
+			h := hx(d)
+			for _, n0 := range []int{0, 1, 2, 3, 5, 9, 40} {
+				fn := []string{"SkipValue", "SkipValueFast", "Valid"}[(i+n0)%3]
+				cases = append(cases, apiCase("stacklen:"+fn, "StackLen", fn, h, stackOf(n0)))
+			}
+		}
+		if err := s.Run(cases); err != nil {
+			return "", err
+		}
+		return "the length of the stack slice stored back after SkipValue/SkipValueFast/Valid on initial slices of length 0..40 compared with the model (C19.stack_size); testing.AllocsPerRun around every listed call on successful inputs: floats on every conversion path (incl. the decimal fallback), integers around the bounds, literals and token readers, string tokens with destinations of spare capacity len+0/1/8 (with and without a prefix), UnescapeStringContent with spare len+0/1/5, Valid/SkipValue/SkipValueFast/Handle*Values with a buffer warmed on the same document (nesting up to 3000); expected 0", nil
 	}
 }
 
